@@ -60,12 +60,11 @@ type vf08Note struct {
 	addr  oid.Address
 }
 
-type vf08Pause struct {
-	at      int // park right before the at-th (0-based) blob write of the address
-	seen    int
-	fired   bool
-	parked  chan struct{}
-	release chan struct{}
+// vf08Gate parks the goroutine that writes a given address right before every blob
+// write until the schedule driver lets it proceed.
+type vf08Gate struct {
+	arrived chan struct{}
+	proceed chan struct{}
 }
 
 type vf08Ctl struct {
@@ -73,19 +72,13 @@ type vf08Ctl struct {
 	putFail   [vf08MaxShards]bool
 	attempts  []vf08Note // blob write attempts (failed ones included), in order
 	faultHits int
-	pauses    map[oid.Address]*vf08Pause
+	gates     map[oid.Address]*vf08Gate
 }
 
-func (c *vf08Ctl) arrive(i int, a oid.Address) (fail bool, p *vf08Pause) {
+func (c *vf08Ctl) arrive(i int, a oid.Address) (fail bool, p *vf08Gate) {
 	c.mu.Lock()
 	defer c.mu.Unlock()
-	if pp := c.pauses[a]; pp != nil {
-		if pp.seen == pp.at && !pp.fired {
-			pp.fired = true
-			p = pp
-		}
-		pp.seen++
-	}
+	p = c.gates[a]
 	c.attempts = append(c.attempts, vf08Note{i, a})
 	if c.putFail[i] {
 		c.faultHits++
@@ -128,8 +121,8 @@ func (s *vf08Store) Init(common.ID) error { return s.Storage.Init(s.id) }
 func (s *vf08Store) Put(a oid.Address, b []byte) error {
 	fail, p := s.ctl.arrive(s.idx, a)
 	if p != nil {
-		close(p.parked)
-		<-p.release
+		p.arrived <- struct{}{}
+		<-p.proceed
 	}
 	if fail {
 		return errVf08Injected
@@ -199,7 +192,7 @@ func vf08NewEnv(rng *rand.Rand, nShards int, thr uint32) (*vf08Env, error) {
 	if err != nil {
 		return nil, err
 	}
-	v := &vf08Env{dir: dir, ctl: &vf08Ctl{pauses: map[oid.Address]*vf08Pause{}}, epoch: &vf08Epoch{}}
+	v := &vf08Env{dir: dir, ctl: &vf08Ctl{gates: map[oid.Address]*vf08Gate{}}, epoch: &vf08Epoch{}}
 	v.epoch.v.Store(1)
 	v.e = New(WithErrorThreshold(thr))
 	for idx := range nShards {
@@ -762,22 +755,23 @@ func vf08RunCase(r *verifkit.Run, idx, nOps int) {
 // constructed lock || tombstone schedules
 
 type vf08Sched struct {
-	idx            int
-	nShards        int
-	permL, permT   []int
-	parkL, parkT   int // park before the k-th blob write; nShards = never
-	releaseLFirst  bool
-	dupOn          int // extra copy of the object on this shard (-1: none)
-	failLockOn     int // put failure for the lock on this shard only (-1: none)
-	gcOrder        []int
+	idx          int
+	nShards      int
+	permL, permT []int
+	lockFirst    bool  // which broadcast is started first
+	turns        []int // interleaving: 0 = let the lock broadcast do its next blob write, 1 = the tombstone
+	dupOn        int   // extra copy of the object on this shard (-1: none)
+	gcOrder      []int
 }
 
 func vf08RunSchedule(r *verifkit.Run, idx int) {
 	rng := r.Rand("sched", idx)
 	s := vf08Sched{idx: idx, nShards: 2 + rng.IntN(2)}
 	s.permL, s.permT, s.gcOrder = rng.Perm(s.nShards), rng.Perm(s.nShards), rng.Perm(s.nShards)
-	s.parkL, s.parkT = rng.IntN(s.nShards+1), rng.IntN(s.nShards+1)
-	s.releaseLFirst = rng.IntN(2) == 0
+	s.lockFirst = rng.IntN(2) == 0
+	for range 4 * vf08MaxShards {
+		s.turns = append(s.turns, rng.IntN(2))
+	}
 	s.dupOn = rng.IntN(s.nShards+1) - 1
 	for a := 0; a < 60; a++ {
 		miss := false
@@ -823,51 +817,74 @@ func vf08RunScheduleOnce(r *verifkit.Run, s vf08Sched) (orderMiss bool) {
 		return false
 	}
 	v.ctl.reset()
-	pl := &vf08Pause{at: s.parkL, parked: make(chan struct{}), release: make(chan struct{})}
-	pt := &vf08Pause{at: s.parkT, parked: make(chan struct{}), release: make(chan struct{})}
+	gates := [2]*vf08Gate{{arrived: make(chan struct{}, 1), proceed: make(chan struct{})}, {arrived: make(chan struct{}, 1), proceed: make(chan struct{})}}
 	v.ctl.mu.Lock()
-	v.ctl.pauses[lock.Address()] = pl
-	v.ctl.pauses[tomb.Address()] = pt
+	v.ctl.gates[lock.Address()] = gates[0]
+	v.ctl.gates[tomb.Address()] = gates[1]
 	v.ctl.mu.Unlock()
 
-	var errL, errT error
-	doneL, doneT := make(chan struct{}), make(chan struct{})
-	watchdog := time.After(2 * time.Minute)
-	wait := func(a, b <-chan struct{}) bool {
+	var errs [2]error
+	done := [2]chan struct{}{make(chan struct{}), make(chan struct{})}
+	objs := [2]*object.Object{lock, tomb}
+	perms := [2][]int{s.permL, s.permT}
+	parked := [2]bool{}
+	finished := [2]bool{}
+	watchdog := time.After(3 * time.Minute)
+	abort := false
+	// await lets goroutine g run until it parks before its next blob write or returns.
+	await := func(g int) {
 		select {
-		case <-a:
-		case <-b:
+		case <-gates[g].arrived:
+			parked[g] = true
+		case <-done[g]:
+			finished[g] = true
 		case <-watchdog:
-			r.Inconclusive("schedule watchdog fired")
-			return false
+			abort = true
 		}
-		return true
 	}
-	v.setOrder(s.permL)
-	go func() { errL = v.e.Put(ctx, lock, nil); close(doneL) }()
-	if !wait(pl.parked, doneL) {
-		close(pl.release)
-		close(pt.release)
+	start := func(g int) {
+		v.setOrder(perms[g])
+		go func() { errs[g] = v.e.Put(ctx, objs[g], nil); close(done[g]) }()
+		await(g)
+	}
+	first := 1
+	if s.lockFirst {
+		first = 0
+	}
+	start(first)
+	if !abort {
+		start(1 - first)
+	}
+	var trace []byte
+	for ti := 0; !abort && !(finished[0] && finished[1]); ti++ {
+		g := s.turns[ti%len(s.turns)]
+		if finished[g] {
+			g = 1 - g
+		}
+		parked[g] = false
+		gates[g].proceed <- struct{}{}
+		trace = append(trace, "LT"[g])
+		await(g)
+	}
+	if abort {
+		// unblock whatever is parked so that the engine can be closed; verdict: none
+		for g := range gates {
+			go func() {
+				for {
+					select {
+					case gates[g].proceed <- struct{}{}:
+					case <-done[g]:
+						return
+					}
+				}
+			}()
+		}
+		<-done[0]
+		<-done[1]
+		r.Inconclusive("schedule watchdog fired")
 		return false
 	}
-	v.setOrder(s.permT)
-	go func() { errT = v.e.Put(ctx, tomb, nil); close(doneT) }()
-	if !wait(pt.parked, doneT) {
-		close(pl.release)
-		close(pt.release)
-		return false
-	}
-	if s.releaseLFirst {
-		close(pl.release)
-		wait(doneL, doneL)
-		close(pt.release)
-		wait(doneT, doneT)
-	} else {
-		close(pt.release)
-		wait(doneT, doneT)
-		close(pl.release)
-		wait(doneL, doneL)
-	}
+	errL, errT := errs[0], errs[1]
 	gotL, gotT := v.ctl.visited(lock.Address()), v.ctl.visited(tomb.Address())
 	for i := range gotL {
 		if gotL[i] != s.permL[i] {
@@ -881,8 +898,8 @@ func vf08RunScheduleOnce(r *verifkit.Run, s vf08Sched) (orderMiss bool) {
 	}
 	r.Eval(1)
 	r.Count("schedules_run", 1)
-	sig := fmt.Sprintf("n%d|L:%s@%d|T:%s@%d|releaseLfirst=%v|dup=%d|errL=%v|errT=%v", s.nShards, vf08Perm(s.permL), s.parkL, vf08Perm(s.permT), s.parkT, s.releaseLFirst, s.dupOn, errL == nil, errT == nil)
-	r.Seen("lock_tombstone_interleavings_seen", fmt.Sprintf("L visited %s, T visited %s, L ok=%v, T ok=%v", vf08Perm(gotL), vf08Perm(gotT), errL == nil, errT == nil))
+	sig := fmt.Sprintf("n%d|L:%s|T:%s|lockFirst=%v|writes:%s|dup=%d|errL=%v|errT=%v", s.nShards, vf08Perm(gotL), vf08Perm(gotT), s.lockFirst, trace, s.dupOn, errL == nil, errT == nil)
+	r.Seen("lock_tombstone_interleavings_seen", fmt.Sprintf("first=%v writes=%s L ok=%v T ok=%v", map[bool]string{true: "L", false: "T"}[s.lockFirst], trace, errL == nil, errT == nil))
 	r.Distinct("sched|" + sig)
 	switch {
 	case errL == nil && errT == nil:
@@ -905,10 +922,14 @@ func vf08RunScheduleOnce(r *verifkit.Run, s vf08Sched) (orderMiss bool) {
 			return true
 		}
 		holders, lockOn, rel := v.lockPlacement(x)
-		r.Violation(fmt.Sprintf("lost|concurrent-lock-tombstone|%s|%s", stage, rel),
-			fmt.Sprintf("lock accepted concurrently with a tombstone broadcast (tombstone err=%s); %s the object is not retrievable: %s; object blob on %v, lock blobs on %v", vf08Err(errT), stage, why, holders, vf08Keys(lockOn)),
-			map[string]any{"schedule_index": s.idx, "shards": s.nShards, "lock_order": s.permL, "lock_parked_before_write": s.parkL, "tombstone_order": s.permT,
-				"tombstone_parked_before_write": s.parkT, "lock_released_first": s.releaseLFirst, "duplicate_copy_on": s.dupOn, "lock_err": vf08Err(errL), "tombstone_err": vf08Err(errT),
+		tst := "tombstone-rejected"
+		if errT == nil {
+			tst = "tombstone-accepted"
+		}
+		r.Violation(fmt.Sprintf("lost|concurrent-lock-tombstone|%s|%s|%s", tst, stage, rel),
+			fmt.Sprintf("lock accepted concurrently with a tombstone broadcast (tombstone err=%s; first started: %v; blob writes interleaved as %s); %s the object is not retrievable: %s; object blob on %v, lock blobs on %v", vf08Err(errT), map[bool]string{true: "lock", false: "tombstone"}[s.lockFirst], trace, stage, why, holders, vf08Keys(lockOn)),
+			map[string]any{"schedule_index": s.idx, "shards": s.nShards, "lock_order": s.permL, "tombstone_order": s.permT, "lock_started_first": s.lockFirst,
+				"blob_write_interleaving": string(trace), "duplicate_copy_on": s.dupOn, "lock_err": vf08Err(errL), "tombstone_err": vf08Err(errT),
 				"lock_visited": gotL, "tombstone_visited": gotT, "stage": stage, "why": why})
 		return false
 	}
@@ -929,7 +950,7 @@ func TestVerif_C08(t *testing.T) {
 	r := verifkit.Start(t, "C08", "exploration")
 	defer r.Finish()
 	cases, scheds, nOps := r.Pick(200, 4000), r.Pick(200, 4000), 18
-	r.SetRule(fmt.Sprintf("(a) %d seeded histories x %d ops on engines with 2-3 real shards: object puts (with/without own expiration), lock puts (expiring 0-4 epochs ahead), tombstone puts, shard mode flips (rw/ro/degraded-ro), per-shard put-failure toggles, GC passes, epoch advances, evacuations; every broadcast runs in a seed-chosen shard visiting order (runs with another observed order are discarded and repeated). (b) %d constructed lock||tombstone schedules (each broadcast parked before a chosen blob write, both orders chosen) followed by GC. distinct = (trigger op, shard modes/put failures, shards holding object / lock, visiting order) signatures of invariant checks on lock-protected objects and of tombstone attempts against them; schedule signatures", cases, nOps, scheds))
+	r.SetRule(fmt.Sprintf("(a) %d seeded histories x %d ops on engines with 2-3 real shards: object puts (with/without own expiration), lock puts (expiring 0-4 epochs ahead), tombstone puts, shard mode flips (rw/ro/degraded-ro), per-shard put-failure toggles, GC passes, epoch advances, evacuations; every broadcast runs in a seed-chosen shard visiting order (runs with another observed order are discarded and repeated). (b) %d constructed lock||tombstone schedules (both broadcasts parked before every blob write, seeded interleaving of the writes, both visiting orders and the starting broadcast chosen) followed by GC. distinct = (trigger op, shard modes/put failures, shards holding object / lock, visiting order) signatures of invariant checks on lock-protected objects and of tombstone attempts against them; schedule signatures", cases, nOps, scheds))
 	r.Assume("a lock counts as accepted for a stored object when Put(lock) returned nil and Get of the target succeeded immediately before")
 	r.Assume("the lock protects while epoch <= its expiration epoch; forced removals (Delete/Drop) are not part of the workload; shards have no write-cache; only put failures are injected, reads never fail")
 	r.Assume("the order in which processExpiredObjects/isLocked visits shards cannot be observed; the chosen insertion order is realised there with probability >= 5/8")
